@@ -245,6 +245,12 @@ pub struct Mgr {
     sched: Arc<Sched>,
 }
 
+thread_local! {
+    /// set by the schedule hook when the controller answered `panic` at a `*.detach` point:
+    /// the next `Manager::detach` on this thread panics
+    static DETACH_PANICS: std::cell::Cell<bool> = const { std::cell::Cell::new(false) };
+}
+
 fn cur_op() -> usize {
     sched::ctx().map(|c| c.op).unwrap_or(usize::MAX)
 }
@@ -307,6 +313,9 @@ impl Manager for Mgr {
             }
         }
         self.sched.event(format!("detach({},{})", op, obj.id));
+        if DETACH_PANICS.with(|f| f.replace(false)) {
+            panic!("scripted panic in Manager::detach");
+        }
     }
 }
 
@@ -470,6 +479,9 @@ pub struct World {
     /// values handed over to callers by take / retain
     pub released: Arc<Mutex<Vec<Tracked>>>,
     pub kinds: Vec<OpKind>,
+    /// the operation is unwinding from a panic (scripted callback panic, return while the
+    /// holder unwinds)
+    pub unwinding: Vec<bool>,
     pub wakers: Vec<Option<Arc<sched::FlagWaker>>>,
     threads: Vec<JoinHandle<()>>,
     pub n_actions: usize,
@@ -561,6 +573,7 @@ impl World {
             out: Arc::new(Mutex::new(BTreeMap::new())),
             released: Arc::new(Mutex::new(Vec::new())),
             kinds: Vec::new(),
+            unwinding: Vec::new(),
             wakers: Vec::new(),
             threads: Vec::new(),
             n_actions: 0,
@@ -611,6 +624,11 @@ impl World {
             }
             return v;
         }
+        // `Manager::detach` may panic where that cannot abort the process: not while the
+        // operation is already unwinding (a panicking callback, a return during unwinding)
+        if (lbl == "ret.detach" || lbl == "take.detach" || lbl == "unready.detach") && !self.unwinding[i] {
+            return vec![Outcome::Run, Outcome::Panic];
+        }
         if lbl == "get.acquire" && op.susp {
             let mut v = vec![Outcome::Run, Outcome::Cancel];
             if let OpKind::Get(w, _, _) = &self.kinds[i] {
@@ -650,6 +668,7 @@ impl World {
         };
         let i = sched.add_op(label);
         self.kinds.push(kind);
+        self.unwinding.push(matches!(spec, Spec::RetUnwind(_)));
         let (flag, waker) = flag_waker();
         self.wakers.push(Some(flag.clone()));
         let spec = spec.clone();
@@ -664,7 +683,11 @@ impl World {
                     let sched = sched.clone();
                     deadpool::verif::set_thread_hook(Some(Box::new(move |label| {
                         let c = sched.yield_at(i, label, false, false);
-                        assert_eq!(c, Outcome::Run, "non-run command at point {}", label);
+                        if c == Outcome::Panic && label.ends_with(".detach") {
+                            DETACH_PANICS.with(|f| f.set(true));
+                        } else {
+                            assert_eq!(c, Outcome::Run, "non-run command at point {}", label);
+                        }
                     })));
                 }
                 let first = sched.wait_first(i);
@@ -812,6 +835,9 @@ impl World {
                 }
                 if !self.enabled(*i).contains(oc) {
                     return Err(format!("action not enabled in the harness: {}", a.line()));
+                }
+                if *oc == Outcome::Panic {
+                    self.unwinding[*i] = true;
                 }
                 if !self.sched.resume(*i, *oc) {
                     // blocked on the slots mutex that a paused operation owns (the model takes no
